@@ -230,6 +230,7 @@ def plan(tier: str) -> list[dict]:
                                  gated_fork=(4, 12, 400), gated_spawn=(1, 3, 60))) + dagprop.exhaustive_jobs(tier, 4)
     jobs += [{'engine': 'executor-machine', 'n': 12 if q else 400, 'steps': 14 if q else 30, 'hashseed': i} for i in range(2)]
     jobs += [{'engine': 'after-abort:controlled', 'n': 80 if q else 2500, 'hashseed': 5}, {'engine': 'after-abort:fork', 'n': 8 if q else 300, 'hashseed': 6}]
+    jobs += [{'engine': 'fork+gated:cpu-default', 'n': 2 if q else 30, 'hashseed': 1}]
     jobs += [{'engine': 'fork+linger', 'n': 10 if q else 300, 'hashseed': 7}]
     jobs += [{'engine': 'fork+stagger', 'n': 6 if q else 60, 'hashseed': 3 + i} for i in range(1 if q else 2)]
     return jobs
@@ -239,6 +240,9 @@ def run_job(rec: core.Recorder, job: dict, seed: int) -> None:
     if job['engine'].startswith('after-abort:'):
         b = job['engine'].split(':')[1]
         core.run_hypothesis(rec, job['engine'], abort_spec(b), check_after_abort, max_examples=job['n'], seed=seed, shrink=(b == 'controlled'))
+        return
+    if job['engine'] == 'fork+gated:cpu-default':
+        core.run_hypothesis(rec, job['engine'], c04.cpu_default_spec(), check, max_examples=job['n'], seed=seed, shrink=False)
         return
     if job['engine'] == 'fork+linger':
         core.run_hypothesis(rec, 'fork+linger', linger_strategy(), check_linger, max_examples=job['n'], seed=seed, shrink=False)
